@@ -18,14 +18,24 @@
 //	    whatever the timestamp.  A breach is reported as `stall@<lal function>`
 //	    only if the all-goroutine dump shows the publishing goroutine still
 //	    inside lal; otherwise the run is inconclusive (HarnessError);
-//	O3  afterwards a second, independent stream on the same manager still
-//	    relays an end marker to its subscriber.
+//	O2w the WORK a message causes is bounded by its size, not by its timestamp or
+//	    by a length field inside it (needs no clock): the number of messages lal
+//	    fans out for one published message (counted by the stream hook) is at
+//	    most 513 x (1 + messages lal was still holding back), and the bytes
+//	    written synchronously to RTSP subscribers / the TS recording stay below a
+//	    linear function of the bytes published so far;
+//	O3  a second, independent stream on the same manager relays a marker to its
+//	    subscriber at generated points between the hostile messages and at the end;
+//	F1/F2 (consumers_test.go) every consumer's byte stream (RTMP, FLV, WS-FLV, TS,
+//	    WS-TS, RTSP, HLS playlist + segments) stays well-framed for its reference
+//	    parser, lal does not drop consumers, and a well-formed tail published
+//	    after the hostile messages still arrives.
 //
-// Deliberately NOT asserted: what consumers of the hostile stream receive
-// (dropping or forwarding opaquely are both fine), whether lal keeps the
-// publisher connected, anything about file contents, and nothing about data
-// messages outside the domain the RTMP session forwards (first AMF value not a
-// string, or "|RtmpSampleAccess").
+// Deliberately NOT asserted: WHAT consumers receive for the hostile messages
+// (dropping or forwarding opaquely are both fine), continuity counters / timing
+// of the TS output, whether lal keeps the publisher connected, and nothing
+// about data messages outside the domain the RTMP session forwards (first AMF
+// value not a string, or "|RtmpSampleAccess").
 package c05
 
 import (
@@ -34,12 +44,15 @@ import (
 	"encoding/json"
 	"fmt"
 	"os"
+	"path/filepath"
 	"strings"
+	"sync"
 	"sync/atomic"
 	"testing"
 	"time"
 
 	"github.com/q191201771/lal/pkg/base"
+	"github.com/q191201771/lal/pkg/hls"
 	"github.com/q191201771/lal/pkg/logic"
 	"github.com/q191201771/lal/pkg/rtsp"
 
@@ -47,8 +60,6 @@ import (
 	"verif/gen"
 	"verif/harness/inproc"
 	"verif/harness/lalclient"
-	"verif/harness/memconn"
-	"verif/ref/rtspref"
 )
 
 func init() {
@@ -86,6 +97,7 @@ type Patch struct {
 //	base  = Item rendered with the case's codecs, or Raw
 //	base  = base[:Trunc]            (if 0 < Trunc < len)
 //	base  = base with Patch applied (bytes beyond the end are ignored)
+//	base  = base[:RepFrom] + Rep x base[RepFrom:]   (if Rep > 1)
 //	final = base + gen.Bytes(TailSeed, TailLen)
 type Msg struct {
 	Type     uint8     `json:"type"` // 8 audio, 9 video, 18 data
@@ -99,6 +111,9 @@ type Msg struct {
 	TailSeed uint32    `json:"tail_seed,omitempty"`
 	TailLen  int       `json:"tail_len,omitempty"`
 	Fmt      int       `json:"fmt,omitempty"` // chunk header format wish (RTMP path)
+	// Rep > 0: the bytes base[RepFrom:] are repeated Rep times in total (many tiny units in one payload)
+	RepFrom int `json:"rep_from,omitempty"`
+	Rep     int `json:"rep,omitempty"`
 }
 
 func (m Msg) Payload(cd gen.Codecs) []byte {
@@ -116,6 +131,12 @@ func (m Msg) Payload(cd gen.Codecs) []byte {
 			if p.Off+i >= 0 && p.Off+i < len(b) {
 				b[p.Off+i] = x
 			}
+		}
+	}
+	if m.Rep > 1 && m.RepFrom >= 0 && m.RepFrom < len(b) {
+		unit := append([]byte(nil), b[m.RepFrom:]...)
+		for i := 1; i < m.Rep; i++ {
+			b = append(b, unit...)
 		}
 	}
 	if m.TailLen > 0 {
@@ -141,6 +162,8 @@ type Out struct {
 	Merge  int `json:"merge"`   // rtmp merge_write_size
 	// hls fragment_duration_ms (0 = 1000)
 	HlsFragMs int `json:"hls_frag_ms,omitempty"`
+	// hls sub-session mode (playlist requests are redirected to a URL with a session id)
+	HlsSession bool `json:"hls_session,omitempty"`
 }
 
 func (o Out) count() int {
@@ -156,7 +179,7 @@ func (o Out) count() int {
 func (o Out) all() bool { return o.count() == 9 }
 
 type Sub struct {
-	Kind   string `json:"kind"`    // rtmp | flv | ts | rtsp
+	Kind   string `json:"kind"`    // rtmp | flv | wsflv | ts | wsts | rtsp | hls
 	JoinAt int    `json:"join_at"` // -1 before the publisher; k: after msgs[0..k) were processed
 }
 
@@ -167,7 +190,8 @@ type Case struct {
 	Codecs     gen.Codecs `json:"codecs"`
 	Msgs       []Msg      `json:"msgs"`
 	Subs       []Sub      `json:"subs"`
-	OtherEarly bool       `json:"other_early"` // the independent stream is set up before the hostile one
+	OtherEarly bool       `json:"other_early"`      // the independent stream is set up before the hostile one
+	Probes     []int      `json:"probes,omitempty"` // the independent stream is probed after these messages (and at the end)
 }
 
 // ---------------------------------------------------------------------------
@@ -329,37 +353,76 @@ func pick(v, def int) int {
 }
 
 func toCfg(o Out) inproc.Config {
-	return inproc.Config{
+	cfg := inproc.Config{
 		DisableRtmp: !o.Rtmp, DisableFlv: !o.Flv, DisableTs: !o.Ts, DisableRtsp: !o.Rtsp,
 		Hls: o.Hls, HlsFragmentMs: pick(o.HlsFragMs, 1000), HlsFragmentNum: 3,
 		RecordFlv: o.RecFlv, RecordTs: o.RecTs,
-		DummyAudio: o.Dummy, DummyAudioWaitMs: o.WaitMs, Hook: o.Hook,
+		DummyAudio: o.Dummy, DummyAudioWaitMs: o.WaitMs,
 		RtmpGopNum: o.Gop, FlvGopNum: o.Gop, TsGopNum: o.Gop,
 		RtmpGopMaxFrame: o.GopMax, FlvGopMaxFrame: o.GopMax, TsGopMaxFrame: o.GopMax,
 		RtmpMergeWrite: o.Merge,
 	}
+	if o.HlsSession {
+		cfg.Mod = func(c *logic.Config) {
+			c.HlsConfig.SubSessionHashKey = "c05"
+			c.HlsConfig.SubSessionTimeoutMs = 30000
+		}
+	}
+	return cfg
 }
 
-func run(c Case) *pbt.Violation {
-	if tainted.Load() {
-		// A previous case of this process stalled inside lal (reported).  The process is about to exit; rapid's
-		// shrinking attempts in between must not be judged in a process where a goroutine spins inside lal.
-		return nil
-	}
-	s := inproc.New(toCfg(c.Out))
-	e := &env{s: s, stream: hostileStream}
-	v := drive(e, c)
-	if e.stalled {
-		_ = os.RemoveAll(s.Dir) // Close would block on the group lock held by the spinning goroutine
-		return v
-	}
-	if v == nil {
-		e.other.close()
-		v = s.PanicViolation()
-	}
-	s.Close()
-	return v
+// ---------------------------------------------------------------------------
+// the stream hook as a work counter: lal calls OnMsg once for every message it
+// fans out (published ones and the dummy audio it makes up), synchronously in
+// the publishing goroutine.
+
+type hookStat struct {
+	n      int // messages fanned out
+	held   int // video + data messages fanned out (the kinds the dummy-audio filter may hold back)
+	bytes  int64
+	starts int
+	stops  int
 }
+
+type hookRec struct {
+	mu sync.Mutex
+	by map[string]*hookStat
+}
+
+type hookCtx struct {
+	r      *hookRec
+	stream string
+}
+
+func (h *hookCtx) OnMsg(msg base.RtmpMsg) {
+	h.r.mu.Lock()
+	st := h.r.by[h.stream]
+	st.n++
+	st.bytes += int64(len(msg.Payload))
+	if msg.Header.MsgTypeId == gen.TypeVideo || msg.Header.MsgTypeId == gen.TypeData {
+		st.held++
+	}
+	h.r.mu.Unlock()
+}
+
+func (h *hookCtx) OnStop() {
+	h.r.mu.Lock()
+	h.r.by[h.stream].stops++
+	h.r.mu.Unlock()
+}
+
+func (r *hookRec) get(stream string) hookStat {
+	r.mu.Lock()
+	defer r.mu.Unlock()
+	if st := r.by[stream]; st != nil {
+		return *st
+	}
+	return hookStat{}
+}
+
+// maxFanOut: what one published message may make lal fan out, whatever its timestamp: itself, a made-up AAC
+// sequence header, and silence for at most the 10 s lal fills (one frame per 21.3 ms = 469), rounded up.
+const maxFanOut = 513
 
 // env is the server a case is driven against: a fresh one per generated case, a
 // shared one (fresh stream name per input) in the native fuzz target.
@@ -368,7 +431,83 @@ type env struct {
 	stream  string        // name of the hostile stream
 	other   *otherStreamT // the independent stream (created on demand, kept)
 	seq     int           // marker sequence number on the independent stream
+	hook    *hookRec      // nil when the stream hook output is off
+	hlsH    *hls.ServerHandler
 	stalled bool
+}
+
+func newEnv(o Out, stream string) *env {
+	e := &env{s: inproc.New(toCfg(o)), stream: stream}
+	if o.Hook {
+		e.hook = &hookRec{by: map[string]*hookStat{}}
+		e.s.SM.WithOnHookSession(func(uniqueKey, streamName string) logic.ICustomizeHookSessionContext {
+			e.hook.mu.Lock()
+			if e.hook.by[streamName] == nil {
+				e.hook.by[streamName] = &hookStat{}
+			}
+			e.hook.by[streamName].starts++
+			e.hook.mu.Unlock()
+			return &hookCtx{r: e.hook, stream: streamName}
+		})
+	}
+	return e
+}
+
+func run(c Case) *pbt.Violation {
+	if tainted.Load() {
+		// A previous case of this process stalled inside lal (reported).  The process is about to exit; rapid's
+		// shrinking attempts in between must not be judged in a process where a goroutine spins inside lal.
+		return nil
+	}
+	e := newEnv(c.Out, hostileStream)
+	s := e.s
+	v := drive(e, c)
+	if e.stalled {
+		_ = os.RemoveAll(s.Dir) // Close would block on the group lock held by the spinning goroutine
+		return v
+	}
+	if v == nil && e.other != nil {
+		e.other.close()
+		v = s.PanicViolation()
+	}
+	s.Close()
+	return v
+}
+
+// tail is the well-formed epilogue published on the hostile stream after the generated messages: fresh
+// sequence headers, an audio frame, a key frame carrying a unique unit (the marker) and filler.  It always has
+// video (AVC when the skeleton is audio-only): hostile video messages may have made lal treat the stream as one
+// with video, whose new consumers wait for a key frame.
+func tail(c Case, lastTs uint32) (cd gen.Codecs, items []gen.Item, marker int) {
+	cd = c.Codecs
+	if cd.Video == "" {
+		cd.Video = "avc"
+	}
+	ts := lastTs + 40
+	k, n := []byte{0x65}, []byte{0x41}
+	if cd.Video == "hevc" {
+		k, n = []byte{19 << 1, 1}, []byte{1 << 1, 1}
+	}
+	items = append(items, gen.Item{Kind: "vsh", Ts: ts})
+	if cd.Audio == "aac" {
+		items = append(items, gen.Item{Kind: "ash", Ts: ts})
+	}
+	if cd.Audio != "" {
+		items = append(items, gen.Item{Kind: "audio", Ts: ts, ALen: 48, ASeed: 98000001})
+	}
+	marker = len(items)
+	items = append(items,
+		gen.Item{Kind: "video", Ts: ts, Key: true, Nals: []gen.NalSpec{{Hdr: k, Len: 48, Seed: 98000003, Serial: 98000003}}},
+		gen.Item{Kind: "video", Ts: ts + 40, Nals: []gen.NalSpec{{Hdr: n, Len: c.Out.Merge + 64, Seed: 98000004, Serial: 98000004}}})
+	if c.Out.Dummy {
+		// An enabled dummy-audio filter holds video back until the video timeline has advanced by its wait time
+		// (<= 300 ms) past the first video message it saw - which may have been a hostile one with any timestamp.
+		// Two later frames, 560 ms apart, cannot both fall short of that in modulo-2^32 arithmetic.
+		items = append(items,
+			gen.Item{Kind: "video", Ts: ts + 440, Nals: []gen.NalSpec{{Hdr: n, Len: 16, Seed: 98000005, Serial: 98000005}}},
+			gen.Item{Kind: "video", Ts: ts + 1000, Nals: []gen.NalSpec{{Hdr: n, Len: 16, Seed: 98000006, Serial: 98000006}}})
+	}
+	return
 }
 
 func drive(e *env, c Case) *pbt.Violation {
@@ -379,6 +518,20 @@ func drive(e *env, c Case) *pbt.Violation {
 		if e.other, v = startOther(s); v != nil {
 			return v
 		}
+	}
+	probe := func() *pbt.Violation {
+		if e.other == nil {
+			var v *pbt.Violation
+			if e.other, v = startOther(s); v != nil {
+				return v
+			}
+		}
+		e.seq++
+		return e.other.relayMarker(s, c.Out.Merge, e.seq)
+	}
+	probeAt := map[int]bool{}
+	for _, k := range c.Probes {
+		probeAt[k] = true
 	}
 
 	// ---- subscribers ------------------------------------------------------------
@@ -392,23 +545,17 @@ func drive(e *env, c Case) *pbt.Violation {
 		}
 	}()
 	joinAt := func(k int) *pbt.Violation {
-		for i, sp := range c.Subs {
+		for _, sp := range c.Subs {
 			if sp.JoinAt != k {
 				continue
 			}
-			sb := joinSub(s, sp.Kind, e.stream)
+			sb, v := joinSub(e, sp.Kind)
 			subs = append(subs, sb)
-			if v := s.PanicViolation(); v != nil {
+			if v != nil {
 				return v
 			}
-			_ = i
 		}
 		return nil
-	}
-	pump := func() {
-		for _, sb := range subs {
-			sb.pump()
-		}
 	}
 	if v := joinAt(-1); v != nil {
 		return v
@@ -443,18 +590,77 @@ func drive(e *env, c Case) *pbt.Violation {
 		f = &rtmpFeeder{p: p}
 	}
 
+	// ---- work accounting (O2w) -----------------------------------------------------
+	var (
+		cumIn     int64 // payload bytes published so far
+		pubHeld   int   // non-empty video + data messages published so far
+		nsent     int
+		maxDelta  int
+		tsRecFile string
+	)
+	dummyAllow := func(perFrame int64) int64 {
+		if !c.Out.Dummy {
+			return 0
+		}
+		return perFrame * maxFanOut * int64(nsent)
+	}
+	work := func(k int, m Msg, n int, before hookStat) *pbt.Violation {
+		if e.hook != nil {
+			after := e.hook.get(e.stream)
+			delta := after.n - before.n
+			if delta > maxDelta {
+				maxDelta = delta
+			}
+			heldBefore := pubHeld - before.held
+			if m.Type != gen.TypeAudio && n > 0 {
+				heldBefore-- // the message itself
+			}
+			if heldBefore < 0 {
+				heldBefore = 0
+			}
+			if allow := maxFanOut * (1 + heldBefore); delta > allow {
+				return pbt.V("work/fan-out-not-bounded-by-size", "message %d (type %d ts %d class %s, %d bytes) made lal fan out %d messages (stream hook calls); at most %d x (1 + %d held back) = %d can be explained by its size (timestamps of the last messages: %s)",
+					k, m.Type, m.Ts, m.Class, n, delta, maxFanOut, heldBefore, allow, lastTimestamps(c.Msgs, k))
+			}
+		}
+		for _, sb := range subs {
+			if got := sb.syncBytes(); got >= 0 {
+				if allow := 8192 + 8*cumIn + 128*int64(nsent) + dummyAllow(64); got > allow {
+					return pbt.V("work/rtsp-output-not-bounded-by-size", "after message %d (type %d class %s, %d bytes; %d bytes published in %d messages) lal has written %d bytes to an RTSP subscriber, more than 8 KiB + 8 x input + 128 B/message%s = %d",
+						k, m.Type, m.Class, n, cumIn, nsent, got, map[bool]string{true: " + dummy audio allowance", false: ""}[c.Out.Dummy], allow)
+				}
+			}
+		}
+		if c.Out.RecTs {
+			if tsRecFile == "" {
+				if fs, _ := filepath.Glob(filepath.Join(s.Dir, "ts", e.stream+"-*.ts")); len(fs) > 0 {
+					tsRecFile = fs[0]
+				}
+			}
+			if tsRecFile != "" {
+				if st, err := os.Stat(tsRecFile); err == nil {
+					if allow := 8192 + 3*cumIn + 1504*int64(nsent) + dummyAllow(376); st.Size() > allow {
+						return pbt.V("work/ts-output-not-bounded-by-size", "after message %d (type %d class %s, %d bytes; %d bytes published in %d messages) the TS recording holds %d bytes, more than 8 KiB + 3 x input + 8 packets/message%s = %d",
+							k, m.Type, m.Class, n, cumIn, nsent, st.Size(), map[bool]string{true: " + dummy audio allowance", false: ""}[c.Out.Dummy], allow)
+					}
+				}
+			}
+		}
+		return nil
+	}
+
+	// send publishes one message and applies O1, O2, O2w.
 	gone := false
-	for k := 0; k <= len(c.Msgs); k++ {
-		if v := joinAt(k); v != nil {
-			return v
+	var lastTs uint32
+	send := func(k int, m Msg, payload []byte) *pbt.Violation {
+		var before hookStat
+		if e.hook != nil {
+			before = e.hook.get(e.stream)
 		}
-		if k == len(c.Msgs) || gone {
-			continue
-		}
-		m := c.Msgs[k]
-		payload := m.Payload(c.Codecs)
-		if !inDomain(m.Type, payload) {
-			panic(pbt.HarnessError{Msg: fmt.Sprintf("message %d (type %d, %d bytes, class %s) is outside the property's domain", k, m.Type, len(payload), m.Class)})
+		cumIn += int64(len(payload))
+		nsent++
+		if m.Type != gen.TypeAudio && len(payload) > 0 {
+			pubHeld++
 		}
 		idle, g := f.send(m, payload)
 		if v := s.PanicViolation(); v != nil {
@@ -467,24 +673,88 @@ func drive(e *env, c Case) *pbt.Violation {
 			return stallViolation(k, m, payload)
 		}
 		gone = g
-		pump()
+		lastTs = m.Ts
+		for _, sb := range subs {
+			sb.pump()
+		}
 		if v := s.PanicViolation(); v != nil {
 			return v
+		}
+		return work(k, m, len(payload), before)
+	}
+
+	for k := 0; k <= len(c.Msgs); k++ {
+		if v := joinAt(k); v != nil {
+			return v
+		}
+		if k == len(c.Msgs) || gone {
+			continue
+		}
+		m := c.Msgs[k]
+		payload := m.Payload(c.Codecs)
+		if !inDomain(m.Type, payload) {
+			panic(pbt.HarnessError{Msg: fmt.Sprintf("message %d (type %d, %d bytes, class %s) is outside the property's domain", k, m.Type, len(payload), m.Class)})
+		}
+		if v := send(k, m, payload); v != nil {
+			return v
+		}
+		if probeAt[k] {
+			if v := probe(); v != nil {
+				v.Detail = fmt.Sprintf("probe after message %d (type %d ts %d class %s payload %s): %s", k, m.Type, m.Ts, m.Class, prefixHex(payload, 32), v.Detail)
+				return v
+			}
 		}
 	}
 	if gone {
 		pbt.Count("publisher-session-ended-by-lal", 1)
 	}
 
-	// ---- O3: an independent stream still relays ---------------------------------------
-	if e.other == nil {
-		var v *pbt.Violation
-		if e.other, v = startOther(s); v != nil {
+	// ---- F1 / F2: consumers -------------------------------------------------------------
+	// A burst of made-up audio larger than lal's write queues may legitimately cost a consumer some messages
+	// (C15's subject): delivery and "not dropped" are only judged when bursts were demonstrably small.
+	calm := !c.Out.Dummy || (e.hook != nil && maxDelta <= 300)
+	if calm {
+		for _, sb := range subs {
+			if sb.lost() {
+				if v := sb.framing(e); v != nil {
+					return v
+				}
+				return pbt.V("consumer-dropped/"+sb.kind, "lal ended the connection of a %s consumer of the hostile stream although its transport never stalled", sb.kind)
+			}
+		}
+	}
+	if !gone {
+		for _, sb := range subs {
+			sb.beforeTail(c.Codecs.Video)
+		}
+		cd, items, mk := tail(c, lastTs)
+		for i, it := range items {
+			m := Msg{Type: it.TypeID(), Ts: it.Ts, Class: "tail/" + it.Kind, Raw: it.Payload(cd)}
+			if v := send(len(c.Msgs)+i, m, m.Raw); v != nil {
+				return v
+			}
+			if gone {
+				break
+			}
+		}
+		if !gone && calm {
+			markerPayload := items[mk].Payload(cd)
+			markerNal := items[mk].Nals[0].Bytes()
+			for _, sb := range subs {
+				if v := sb.delivered(markerPayload, markerNal); v != nil {
+					return v
+				}
+			}
+		}
+	}
+	for _, sb := range subs {
+		if v := sb.framing(e); v != nil {
 			return v
 		}
 	}
-	e.seq++
-	if v := e.other.relayMarker(s, c.Out.Merge, e.seq); v != nil {
+
+	// ---- O3: an independent stream still relays ---------------------------------------
+	if v := probe(); v != nil {
 		return v
 	}
 
@@ -495,7 +765,27 @@ func drive(e *env, c Case) *pbt.Violation {
 		v.Detail = "during publisher teardown: " + v.Detail
 		return v
 	}
+	// the final flush must leave well-framed streams too
+	for _, sb := range subs {
+		if sb.hl != nil {
+			continue
+		}
+		if v := sb.framing(e); v != nil {
+			v.Detail = "after the publisher left: " + v.Detail
+			return v
+		}
+	}
 	return nil
+}
+
+func lastTimestamps(msgs []Msg, k int) string {
+	var b strings.Builder
+	for i := k - 3; i <= k && i < len(msgs); i++ {
+		if i >= 0 {
+			fmt.Fprintf(&b, "%d:%d/%d ", i, msgs[i].Type, msgs[i].Ts)
+		}
+	}
+	return b.String()
 }
 
 func prefixHex(b []byte, n int) string {
@@ -725,100 +1015,6 @@ func (o *otherStreamT) close() {
 	o.p.Close()
 	o.p.Conn.WaitPeerDone(10 * time.Second)
 	o.sub.Close()
-}
-
-// ---------------------------------------------------------------------------
-// subscribers of the hostile stream (content is not judged)
-
-type subT struct {
-	kind string
-	rc   *lalclient.Consumer
-	ts   *lalclient.TsConsumer
-	// rtsp
-	conn  *memconn.Conn
-	rc2   *rtspref.Client
-	url   string
-	state int // 0 waiting for the DESCRIBE response, 1 playing, 2 dead
-}
-
-func joinSub(s *inproc.Server, kind string, stream string) *subT {
-	sb := &subT{kind: kind, url: "rtsp://127.0.0.1:5544/live/" + stream}
-	switch kind {
-	case "rtmp":
-		sb.rc = lalclient.NewRtmpSub(s, "live", stream)
-	case "flv":
-		sb.rc = lalclient.NewFlvSub(s, "live", stream, false)
-	case "ts":
-		sb.ts = lalclient.NewTsSub(s, "live", stream)
-	case "rtsp":
-		sb.conn = s.RtspConn()
-		sb.rc2 = rtspref.NewClient(sb.conn)
-		// no OPTIONS: the only thing lal sends before PLAY is then the DESCRIBE response
-		if _, err := sb.rc2.WriteRequest("DESCRIBE", sb.url, map[string]string{"Accept": "application/sdp"}, nil); err != nil {
-			sb.state = 2
-		}
-		sb.conn.WaitPeerIdle(lalclient.IdleTimeout)
-		sb.pump()
-	default:
-		panic(pbt.HarnessError{Msg: "bad subscriber kind " + kind})
-	}
-	return sb
-}
-
-// pump advances the RTSP subscriber: lal answers DESCRIBE only once it has built
-// an SDP from the published headers; when the answer has arrived, SETUP + PLAY
-// follow at once (their responses do not depend on the publisher).
-func (sb *subT) pump() {
-	if sb.kind != "rtsp" {
-		return
-	}
-	switch sb.state {
-	case 0:
-		if sb.conn.Pending() == 0 {
-			if sb.conn.PeerGone() {
-				sb.state = 2
-			}
-			return
-		}
-		_ = sb.conn.SetReadDeadline(time.Now().Add(5 * time.Second))
-		r, err := sb.rc2.ReadResponse()
-		if err != nil || r.Status != 200 {
-			sb.state = 2
-			_ = sb.conn.Close()
-			return
-		}
-		sdp := r.Body
-		ctl := rtspref.SdpControls(sdp)
-		if len(ctl) == 0 || len(ctl) > 4 {
-			sb.state = 2
-			_ = sb.conn.Close()
-			return
-		}
-		if err := sb.rc2.SetupPlay(sb.url, ctl); err != nil {
-			sb.state = 2
-			_ = sb.conn.Close()
-			return
-		}
-		_ = sb.conn.SetReadDeadline(time.Time{})
-		sb.conn.WaitPeerIdle(lalclient.IdleTimeout)
-		sb.state = 1
-	case 1:
-		_ = sb.conn.ReadAvailable() // RTP is not judged; keep the queue short
-	}
-}
-
-func (sb *subT) close() {
-	if sb.kind == "rtsp" {
-		pbt.Count([]string{"rtsp-sub-still-waiting-for-sdp", "rtsp-sub-playing", "rtsp-sub-refused-or-closed"}[sb.state], 1)
-	}
-	switch {
-	case sb.rc != nil:
-		sb.rc.Close()
-	case sb.ts != nil:
-		sb.ts.Close()
-	case sb.conn != nil:
-		_ = sb.conn.Close()
-	}
 }
 
 // ---------------------------------------------------------------------------
